@@ -453,9 +453,9 @@ class ANMLWriter:
 
 
 def _is_valid_anml_name(name: str) -> bool:
-    regex = re.compile(r"^[a-zA-Z][a-zA-Z0-9_]*")
+    regex = re.compile(r"[a-zA-Z][a-zA-Z0-9_]*")
     if (
-        re.match(regex, name) is None or name in ANML_KEYWORDS
+        re.fullmatch(regex, name) is None or name in ANML_KEYWORDS
     ):  # If the name does not start with an alphabetic char or is a keyword
         return False
     return True
